@@ -1,9 +1,9 @@
 CONSTANTS
-  N = 3
-  L = 2
+  N = 2
+  L = 1
   Cap = 2
   HasHead = TRUE
-  Manual = FALSE
+  Manual = TRUE
   HasPay = FALSE
   HasPlans = TRUE
   HasSerial = TRUE
@@ -14,9 +14,9 @@ CONSTANTS
   DefMask <- AllDef
   MaxActs = 1
   WithMonitors = TRUE
-  EnvOps <- SmokeOps
-  EnvActs <- SmokeActs
-  EnvPoints <- AllPoints
+  EnvOps <- SerialOps
+  EnvActs <- SerialActs
+  EnvPoints <- SerialPoints
 INIT Init
 NEXT Next
 VIEW StView
